@@ -77,13 +77,50 @@ def apply_edits(root, edits):
     return None
 
 
+def seeded_entries(prop):
+    """Seeded sub-agent changes as extra validation variants: a breaking change that the last
+    matrix run attributed to this property must be reported, every behaviour-preserving change
+    must leave the check silent (no violation, no analysis error)."""
+    import glob
+
+    out = []
+    for d in sorted(glob.glob(os.path.join(VERIF, "seeded", "*", "patch.diff"))):
+        name = os.path.basename(os.path.dirname(d))
+        if name.startswith("benign"):
+            out.append({"name": "seed:" + name, "kind": "twin", "patch": d})
+            continue
+        rp = os.path.join(os.path.dirname(d), "result.json")
+        if not os.path.exists(rp):
+            continue
+        try:
+            with open(rp) as fh:
+                r = json.load(fh)
+        except Exception:
+            continue
+        if prop in r.get("caught_by", []):
+            out.append({"name": "seed:" + name, "kind": "mutant", "patch": d, "expect_rule": None, "breaks": "seeded change " + name})
+    return out
+
+
+def apply_patch(root, patch):
+    import subprocess
+
+    r = subprocess.run(["git", "apply", "--unsafe-paths", "--directory", root, patch], cwd=root, capture_output=True, text=True)
+    if r.returncode:
+        r = subprocess.run(["patch", "-p1", "-s", "-i", patch], cwd=root, capture_output=True, text=True)
+    return None if r.returncode == 0 else "patch does not apply to the current tree"
+
+
 def one(args):
     prop, repo, entry, base = args
     tmp = tempfile.mkdtemp(prefix="verif-st-", dir=os.environ.get("VERIF_TMP") or None)
     try:
         shutil.copytree(os.path.join(repo, "fortls"), os.path.join(tmp, "fortls"), ignore=shutil.ignore_patterns("__pycache__", "*.pyc"))
-        edits = entry.get("edits") or [{"file": entry["file"], "find": entry["find"], "replace": entry["replace"]}]
-        why = apply_edits(tmp, edits)
+        if entry.get("patch"):
+            why = apply_patch(tmp, entry["patch"])
+        else:
+            edits = entry.get("edits") or [{"file": entry["file"], "find": entry["find"], "replace": entry["replace"]}]
+            why = apply_edits(tmp, edits)
         if why:
             return entry["name"], "skipped", why
         v, extra = violations(prop, tmp)
@@ -106,8 +143,12 @@ def one(args):
         shutil.rmtree(tmp, ignore_errors=True)
 
 
-def validate(prop, repo, jobs=16, only=None):
+def validate(prop, repo, jobs=16, only=None, seeds=None):
     entries = load(prop)
+    if seeds is None:
+        seeds = bool(os.environ.get("VERIF_SEEDS"))
+    if seeds:
+        entries = entries + seeded_entries(prop)
     if only:
         entries = [e for e in entries if only in e["name"]]
     base, _ = violations(prop, repo)
@@ -145,8 +186,9 @@ def main():
     ap.add_argument("--repo", default="/repo")
     ap.add_argument("--jobs", type=int, default=16)
     ap.add_argument("--only")
+    ap.add_argument("--seeds", action="store_true", help="also replay the seeded sub-agent changes")
     a = ap.parse_args()
-    s = validate(a.prop.upper(), a.repo, a.jobs, a.only)
+    s = validate(a.prop.upper(), a.repo, a.jobs, a.only, seeds=a.seeds or None)
     if "error" in s:
         print(s["error"])
         return 2
